@@ -42,6 +42,7 @@ VI = {"Ok": 0, "Err": 1, "None": 0, "Some": 1}
 ADT = {"Ok": "std::result::Result", "Err": "std::result::Result", "None": "std::option::Option", "Some": "std::option::Option"}
 MAX_CLOSURE_BLOCKS = 60
 _ADTS = {}
+INLINED_CLOSURES = []       # closure definition paths whose call was replaced by their body (filled by the passes below)
 
 
 def _kind_of(callee):
@@ -229,6 +230,7 @@ def _call_closure(bodies, body, stmts, c, cp, clo, extra_args, dest, target, unw
     cb = _new_block(body, stmts, call)
     clo_alias = {q: q for q in bodies if q.startswith(cp + "::{") and q != cp}
     inline.inline_call(body, cb, copy.deepcopy(clo), cp, clo_alias)
+    INLINED_CLOSURES.append(cp)
     return cb
 
 
@@ -459,6 +461,7 @@ def desugar_call(bodies, path, body, bb):
             if q.startswith(clo_path + "::{") and q != clo_path:
                 clo_alias[q] = q
         inline.inline_call(body, cb, copy.deepcopy(clo), clo_path, clo_alias)
+        INLINED_CLOSURES.append(clo_path)
     return True
 
 
@@ -492,6 +495,7 @@ def inline_closure_call(bodies, path, body, bb):
     body["blocks"][bb]["term"] = call
     clo_alias = {q: q for q in bodies if q.startswith(cp + "::{") and q != cp}
     inline.inline_call(body, bb, copy.deepcopy(clo), cp, clo_alias)
+    INLINED_CLOSURES.append(cp)
     return True
 
 
@@ -595,6 +599,7 @@ def apply(raw, changed, ref_counts):
     call.  Returns [(body path, combinator, closure/function)]"""
     rep = []
     bodies = raw["bodies"]
+    del INLINED_CLOSURES[:]
     _ADTS.clear()
     _ADTS.update(raw.get("adts") or {})
     for path in sorted(changed):
